@@ -176,6 +176,79 @@ class StageResult:
             self.counters[name] = self.counters.get(name, 0) + n
 
 
+MEMCHECK_KINDS = [
+    (r"Conditional jump or move depends on uninitialised value", "uninitialised-condition"),
+    (r"Use of uninitialised value", "uninitialised-use"),
+    (r"Syscall param .* (uninitialised|unaddressable)", "uninitialised-syscall-param"),
+    (r"Invalid read of size", "invalid-read"),
+    (r"Invalid write of size", "invalid-write"),
+    (r"Invalid free|Mismatched free", "invalid-free"),
+    (r"Source and destination overlap", "overlap"),
+    (r"Argument .* of function .* has a fishy", "fishy-size"),
+]
+
+
+def parse_memcheck(path):
+    """[(key, case, msg, excerpt)] one per distinct (kind, function) per case from a valgrind memcheck stderr."""
+    try:
+        txt = open(path, errors="replace").read()
+    except OSError:
+        return []
+    out, seen = [], set()
+    case = None
+    block = None
+    lines = txt.splitlines()
+    lines.append("")
+
+    def flush(b):
+        if not b:
+            return
+        head = b[0]
+        kind = None
+        for rx, k in MEMCHECK_KINDS:
+            if re.search(rx, head):
+                kind = k
+                break
+        if not kind:
+            return
+        func = "?"
+        for ln in b[1:]:
+            m = re.search(r"(?:at|by) 0x[0-9A-Fa-f]+: (\S+) \(([^):]+):(\d+)\)", ln)
+            if m and os.path.exists(os.path.join(REPO, "src", m.group(2))):
+                func = m.group(1)
+                break
+            if "Uninitialised value was created" in ln or "Address 0x" in ln:
+                break
+        key = "memcheck:%s|%s" % (kind, func)
+        if (case, key) in seen:
+            return
+        seen.add((case, key))
+        out.append(dict(key=key, case=case, msg="valgrind memcheck: %s" % re.sub(r"^==\d+== ", "", head),
+                        excerpt="\n".join(b)[:3000]))
+
+    for ln in lines:
+        m = re.match(r"@@VH BEGIN (\d+)", ln)
+        if m:
+            flush(block)
+            block = None
+            case = int(m.group(1))
+            continue
+        if re.match(r"==\d+== \S", ln) and not re.match(r"==\d+==\s+(at|by) 0x", ln) and not re.match(r"==\d+==  ", ln):
+            # a new error block starts with a non-indented line
+            flush(block)
+            block = [ln]
+        elif re.match(r"==\d+==", ln) and block is not None:
+            if re.match(r"==\d+==\s*$", ln):
+                flush(block)
+                block = None
+            else:
+                block.append(ln)
+        else:
+            flush(block)
+            block = None
+    return [v for v in out if v["case"] is not None]
+
+
 def _stderr_segment(path, case):
     try:
         txt = open(path, errors="replace").read()
@@ -228,6 +301,11 @@ def run_stage(prop, stage, tier, seed, rundir, only=None, verbose=False, dump=No
             if dump:
                 cmd += ["--dump", dump]
             cmd += stage.get("args", [])
+            if stage.get("valgrind"):
+                # memcheck slice: errors are reported on stderr and attributed to cases afterwards (the process goes on)
+                cmd = ["valgrind", "--quiet", "--error-exitcode=0", "--track-origins=yes", "--num-callers=24",
+                       "--errors-for-leak-kinds=none", "--leak-check=no", "--error-limit=no"] + cmd
+                env["VH_WATCHDOG_SCALE"] = "60"
             with open(err, "wb") as ef:
                 p = subprocess.Popen(cmd, stdout=subprocess.DEVNULL, stderr=ef, env=env, cwd=VERIF)
                 try:
@@ -291,6 +369,11 @@ def run_stage(prop, stage, tier, seed, rundir, only=None, verbose=False, dump=No
                     res.harness_errors.append("%s shard %d: overall stage timeout (case %s open)" % (
                         sname, shard, open_case))
                 return
+            if stage.get("valgrind"):
+                with lock:
+                    for v in parse_memcheck(err):
+                        res.violations.append(dict(v, stage=sname, errfile=err,
+                                                   history=dict(shard=shard, nshards=nshards, first=first)))
             if done and rc == 0:
                 return
             if open_case is None:
